@@ -16,6 +16,11 @@
 (*   Send(item, pushed, trunc, qlen)  critical section of Sender::send     *)
 (*   TrySend(item, code, qlen)        code 0 ok, 1 full, 2 closed          *)
 (*   SendRet(item, res)               a fallible/blocking send returned    *)
+(*   RecvPanicked                     a panic escaped Receiver::exec / took  *)
+(*                                    the worker thread down: NO action,     *)
+(*                                    always rejected (C08: neither the      *)
+(*                                    processor nor a watcher may do that;   *)
+(*                                    C06: what it had taken is lost)        *)
 (*   WaitBudget(first, rel)           a wait inside a blocking call was    *)
 (*                                    given less/equal/more time than the  *)
 (*                                    call's timeout (first) / the last    *)
